@@ -1862,6 +1862,10 @@ func (data *Data) DropRetentionPolicy(database, name string) error {
 		return nil
 	}
 	delete(di.RetentionPolicies, name)
+	if di.DefaultRetentionPolicy == name {
+		// the default policy must exist: the database is left without a default
+		di.DefaultRetentionPolicy = ""
+	}
 
 	return nil
 }
